@@ -88,7 +88,8 @@ fn class2(b: &[(u64, u64); 3], x: u64) -> u8 {
     }
 }
 
-fn merge_step(k: usize, class: Option<u8>) {
+/// what == 0: the returned byte count; what == 1: invariant + held set (two queries instead of one big one)
+fn merge_step(k: usize, class: Option<u8>, what: u8) {
     let (mut s, b) = any_list(k);
     let (x, y): (u64, u64) = (kani::any(), kani::any());
     kani::assume(x < y && y < LIM);
@@ -98,72 +99,74 @@ fn merge_step(k: usize, class: Option<u8>) {
     let p: u64 = kani::any();
     let before = held(&b, k, p);
     let n = s.merge((x, y));
-    let mut want = y - x;
-    let mut i = 0;
-    while i < k {
-        want -= overlap(x, y, b[i]);
-        i += 1;
+    if what == 0 {
+        let mut want = y - x;
+        let mut i = 0;
+        while i < k {
+            want -= overlap(x, y, b[i]);
+            i += 1;
+        }
+        let len = s.len();
+        forget(s);
+        assert!(n == want, "merge returns the number of newly covered bytes");
+        assert!(len >= 1 && len <= k + 1);
+        kani::cover!(n == 0, "nothing new");
+        kani::cover!(len < k + 1 && n > 0, "coalesced");
+    } else {
+        let inv = invariant(&s);
+        let after = held_list(&s, p);
+        forget(s);
+        assert!(inv, "list stays sorted, disjoint, non-adjacent");
+        assert!(after == (before || (x <= p && p < y)), "held set == old set union new segment");
+        kani::cover!(after && !before, "probe byte newly held");
     }
-    let inv = invariant(&s);
-    let after = held_list(&s, p);
-    let len = s.len();
-    forget(s);
-    assert!(n == want, "merge returns the number of newly covered bytes");
-    assert!(inv, "list stays sorted, disjoint, non-adjacent");
-    assert!(after == (before || (x <= p && p < y)), "held set == old set union new segment");
-    assert!(len >= 1 && len <= k + 1);
-    kani::cover!(n == 0, "nothing new");
-    kani::cover!(len < k + 1 && n > 0, "coalesced");
 }
 
-//# funcs=Segments::merge,segments::merge; bound=pre-state: every invariant list with 0 entries; stubs=none
+macro_rules! merge_h {
+    ($name:ident, $uw:expr, $k:expr, $class:expr, $what:expr) => {
+        #[kani::proof]
+        #[kani::unwind($uw)]
+        fn $name() {
+            merge_step($k, $class, $what);
+        }
+    };
+}
+//# funcs=Segments::merge,segments::merge; bound=pre-state: the empty list; returned count, invariant and held set; stubs=none
 #[kani::proof]
 #[kani::unwind(5)]
 fn c09_q_merge_k0() {
-    merge_step(0, None);
+    if kani::any() {
+        merge_step(0, None, 0)
+    } else {
+        merge_step(0, None, 1)
+    }
 }
-//# funcs=Segments::merge,segments::merge; bound=pre-state: every invariant list with 1 entry, 64-bit boundaries < 2^62; stubs=none
-#[kani::proof]
-#[kani::unwind(5)]
-fn c09_q_merge_k1() {
-    merge_step(1, None);
-}
-//# funcs=Segments::merge,segments::merge; bound=pre-state: every invariant list with 2 entries; new segment starts before the first entry; stubs=none
-#[kani::proof]
-#[kani::unwind(6)]
-fn c09_q_merge_k2_before_first() {
-    merge_step(2, Some(0));
-}
-//# funcs=Segments::merge,segments::merge; bound=pre-state: every invariant list with 2 entries; new segment starts inside/at the end of the first entry; stubs=none
-#[kani::proof]
-#[kani::unwind(6)]
-fn c09_q_merge_k2_in_first() {
-    merge_step(2, Some(1));
-}
-//# funcs=Segments::merge,segments::merge; bound=pre-state: every invariant list with 2 entries; new segment starts in the gap; stubs=none
-#[kani::proof]
-#[kani::unwind(6)]
-fn c09_q_merge_k2_between() {
-    merge_step(2, Some(2));
-}
-//# funcs=Segments::merge,segments::merge; bound=pre-state: every invariant list with 2 entries; new segment starts inside/at the end of the last entry; stubs=none
-#[kani::proof]
-#[kani::unwind(6)]
-fn c09_q_merge_k2_in_last() {
-    merge_step(2, Some(3));
-}
-//# funcs=Segments::merge,segments::merge; bound=pre-state: every invariant list with 2 entries; new segment starts after the last entry; stubs=none
-#[kani::proof]
-#[kani::unwind(6)]
-fn c09_q_merge_k2_after_last() {
-    merge_step(2, Some(4));
-}
-//# funcs=Segments::merge,segments::merge; bound=pre-state: every invariant list with 3 entries; stubs=none
-#[kani::proof]
-#[kani::unwind(7)]
-fn c09_t_merge_k3() {
-    merge_step(3, None);
-}
+//# funcs=Segments::merge,segments::merge; bound=pre-state: every invariant list with 1 entry, 64-bit boundaries < 2^62; returned byte count; stubs=none
+merge_h!(c09_q_merge_k1_count, 5, 1, None, 0);
+//# funcs=Segments::merge,segments::merge; bound=pre-state: every invariant list with 1 entry; invariant preserved + held set (probe byte); stubs=none
+merge_h!(c09_q_merge_k1_set, 5, 1, None, 1);
+//# funcs=Segments::merge,segments::merge; bound=pre-state: every invariant list with 2 entries, new segment starts before the first entry; returned byte count; stubs=none
+merge_h!(c09_q_merge_k2_count_before_first, 6, 2, Some(0), 0);
+//# funcs=Segments::merge,segments::merge; bound=2 entries, new segment starts inside/at the end of the first entry; returned byte count; stubs=none
+merge_h!(c09_q_merge_k2_count_in_first, 6, 2, Some(1), 0);
+//# funcs=Segments::merge,segments::merge; bound=2 entries, new segment starts in the gap; returned byte count; stubs=none
+merge_h!(c09_q_merge_k2_count_between, 6, 2, Some(2), 0);
+//# funcs=Segments::merge,segments::merge; bound=2 entries, new segment starts inside/at the end of the last entry; returned byte count; stubs=none
+merge_h!(c09_q_merge_k2_count_in_last, 6, 2, Some(3), 0);
+//# funcs=Segments::merge,segments::merge; bound=2 entries, new segment starts after the last entry; returned byte count; stubs=none
+merge_h!(c09_q_merge_k2_count_after_last, 6, 2, Some(4), 0);
+//# funcs=Segments::merge,segments::merge; bound=2 entries, start before the first entry; invariant + held set; stubs=none
+merge_h!(c09_t_merge_k2_set_before_first, 6, 2, Some(0), 1);
+//# funcs=Segments::merge,segments::merge; bound=2 entries, start in the first entry; invariant + held set; stubs=none
+merge_h!(c09_t_merge_k2_set_in_first, 6, 2, Some(1), 1);
+//# funcs=Segments::merge,segments::merge; bound=2 entries, start in the gap; invariant + held set; stubs=none
+merge_h!(c09_t_merge_k2_set_between, 6, 2, Some(2), 1);
+//# funcs=Segments::merge,segments::merge; bound=2 entries, start in the last entry; invariant + held set; stubs=none
+merge_h!(c09_t_merge_k2_set_in_last, 6, 2, Some(3), 1);
+//# funcs=Segments::merge,segments::merge; bound=2 entries, start after the last entry; invariant + held set; stubs=none
+merge_h!(c09_t_merge_k2_set_after_last, 6, 2, Some(4), 1);
+//# funcs=Segments::merge,segments::merge; bound=pre-state: every invariant list with 3 entries; returned byte count (may be inconclusive: memory); stubs=none
+merge_h!(c09_t_merge_k3_count, 7, 3, None, 0);
 
 fn complete_step(k: usize) {
     let (s, b) = any_list(k);
@@ -195,7 +198,8 @@ fn c09_q_is_complete() {
 fn gaps_step(k: usize) {
     let (s, b) = any_list(k);
     let (lo, hi): (u64, u64) = (kani::any(), kani::any());
-    kani::assume(lo <= hi && hi < LIM);
+    // callers never query an empty window (NAK scopes and delayed-NAK ranges are non-empty)
+    kani::assume(lo < hi && hi < LIM);
     let p: u64 = kani::any();
     let in_window = lo <= p && p < hi;
     let g = s.gaps(lo, hi);
@@ -225,7 +229,7 @@ fn gaps_step(k: usize) {
     assert!(in_window || !in_gap, "no gap reaches outside the window");
     kani::cover!(n == k + 1, "max gaps");
 }
-//# funcs=Segments::gaps; bound=lists with 0 or 1 entries, any window lo<=hi<2^62, probe byte symbolic; stubs=none
+//# funcs=Segments::gaps; bound=lists with 0 or 1 entries, any non-empty window lo<hi<2^62, probe byte symbolic; stubs=none
 #[kani::proof]
 #[kani::unwind(6)]
 fn c09_q_gaps_k01() {
